@@ -47,7 +47,7 @@ def trees():
     return out
 
 
-ACTIONS = ("exec A", "exec B", "exec M", "proc A", "proc B", "attach M", "attach A", "attach leaf", "attach M again")
+ACTIONS = ("exec A", "exec B", "exec M", "proc A", "proc B", "attach M", "attach A", "attach leaf", "attach M again", "attach bare")
 
 
 def shapes(tier, seed):
@@ -135,6 +135,7 @@ def run_history(tname, hist, ctx, valfn, bind=None):
         P = iteration.RowSequence([{env.tags[c]: r[c] for c in mcols} for r in prow])
         ptab = relmodel.leaf_concrete([{c: zint(r[c]) for c in mcols} for r in prow], mcols)
     problems = list(early[:1])
+    bare = []
     checks = []
     m_state = {"attached": False}
     payload_seen = {}
@@ -195,7 +196,10 @@ def run_history(tname, hist, ctx, valfn, bind=None):
                 got = symproc.evaluate(out, db)
                 checks.append((act, got, oracle(target)))
             elif kind == "attach":
-                node = {"M": mnode, "A": T["A"], "leaf": env.leaves["X"], "M again": mnode}[target]
+                if target == "bare":
+                    # a leaf that was created without a payload (e.g. a doomed / identity leaf of an engine using the base-class hooks)
+                    bare.append(LeafRelation(env.engines["it1"], frozenset(env.tags[c] for c in "ab"), None, name="bare", min_rows=0, max_rows=None))
+                node = {"M": mnode, "A": T["A"], "leaf": env.leaves["X"], "M again": mnode, "bare": bare[-1] if bare else None}[target]
                 expect_ok = isinstance(node, MarkerRelation) and node.payload is None
                 try:
                     node.attach_payload(P)
